@@ -1,6 +1,6 @@
 (* C11 — lemmas about Model/FileConfine.v: confinement of every mutation of the
    repaired store to the working directory. *)
-From Oras Require Import Base.Prelude Model.FileConfine.
+From Oras Require Import Base.Prelude Generated.GC11 Model.FileConfine.
 Require Import Lia.
 Open Scope nat_scope.
 Global Opaque FUEL NLINK.
@@ -1079,9 +1079,9 @@ Proof.
   intros I H. unfold ensure_write_dir in H. cbn [fixN cfg_fixed] in H.
   assert (SP : strip_prefix wd (wd ++ rel) = Some rel) by now apply strip_prefix_spec.
   rewrite SP in H. pose proof (RealD_inv _ _ I) as HRwd.
-  destruct (mkdir_all f (Nms wd) 511) as [f0|] eqn:M0; [|discriminate].
-  unfold mkdir_all in M0. apply (mkdir_prefixes_noop f 511 wd [] f0 HRwd) in M0. subst f0.
-  destruct (mkdir_real_lex wd 511 rel wd _ f1 I (inside_refl wd) HRwd H) as (K1 & R1 & _).
+  destruct (mkdir_all f (Nms wd) c11_write_dir_perm) as [f0|] eqn:M0; [|discriminate].
+  unfold mkdir_all in M0. apply (mkdir_prefixes_noop f _ wd [] f0 HRwd) in M0. subst f0.
+  destruct (mkdir_real_lex wd _ rel wd _ f1 I (inside_refl wd) HRwd H) as (K1 & R1 & _).
   split; assumption.
 Qed.
 
@@ -1132,10 +1132,10 @@ Proof.
     assert (HRp : RealD (st_fs s) [] (removelast wd)).
     { apply (RealD_prefix _ (removelast wd) [last wd []]). rewrite <- app_removelast_last by exact Hwd. exact HRwd. }
     unfold ensure_write_dir in H. cbn [fixN cfg_fixed] in H. rewrite SP in H.
-    destruct (mkdir_all (st_fs s) (Nms (removelast wd)) 511) as [f1|] eqn:M.
+    destruct (mkdir_all (st_fs s) (Nms (removelast wd)) c11_ensure_dir_perm) as [f1|] eqn:M.
     2:{ injection H as <- _. now apply Keeps_refl. }
     unfold mkdir_all in M.
-    apply (mkdir_prefixes_noop (st_fs s) 511 (removelast wd) [] f1 HRp) in M. subst f1.
+    apply (mkdir_prefixes_noop (st_fs s) _ (removelast wd) [] f1 HRp) in M. subst f1.
     rewrite path_eqb_refl in H. cbn [negb andb] in H.
     rewrite (write_at_real _ wd w 438 HRwd) in H. injection H as <- _. now apply Keeps_refl.
 Qed.
@@ -1628,3 +1628,59 @@ Lemma manifest_stale :
   view_at (fst (run0 cfg_fixed os_manifest_stale)) [b "r"; b "w"; b "copy"] = VNone /\
   view_at (fst (run0 cfg_fixed os_manifest_stale)) [b "r"; b "w"; b "later"] = VNone.
 Proof. vm_compute. repeat split. Qed.
+
+(* ---------- the process's current directory is irrelevant for the repaired store ---------- *)
+
+Lemma do_link_cwd f cwd1 cwd2 fp pn tgt :
+  do_link cfg_fixed f cwd1 fp pn tgt = do_link cfg_fixed f cwd2 fp pn tgt.
+Proof. reflexivity. Qed.
+
+Lemma extract_entry_cwd pres cwd1 cwd2 dp dirName f e t :
+  extract_entry cfg_fixed pres cwd1 dp dirName f e t = extract_entry cfg_fixed pres cwd2 dp dirName f e t.
+Proof. reflexivity. Qed.
+
+Lemma extract_cwd pres cwd1 cwd2 dp dirName : forall es f ts dirs,
+  extract cfg_fixed pres cwd1 dp dirName f es ts dirs = extract cfg_fixed pres cwd2 dp dirName f es ts dirs.
+Proof.
+  induction es as [|e es IH]; intros f ts dirs; [reflexivity|].
+  cbn [extract]. rewrite (extract_entry_cwd pres cwd1 cwd2).
+  destruct (extract_entry cfg_fixed pres cwd2 dp dirName f e (hd 0%N ts)); [apply IH | reflexivity].
+Qed.
+
+Lemma push_cwd pres wd cwd1 cwd2 s o :
+  push cfg_fixed pres wd cwd1 s o = push cfg_fixed pres wd cwd2 s o.
+Proof.
+  destruct o as [t c|t ts es|layers]; try reflexivity.
+  destruct t as [|t0 tt]; [reflexivity|]. unfold push, push_dir.
+  destruct (existsb (str_eqb (t0 :: tt)) (st_names s)); [reflexivity|].
+  destruct (write_path cfg_fixed wd (t0 :: tt)); [|reflexivity].
+  destruct (ensure_write_dir cfg_fixed wd (st_fs s) (clean_abs l) l); [|reflexivity].
+  now rewrite (extract_cwd pres cwd1 cwd2).
+Qed.
+
+Lemma pushes_cwd pres wd cwd1 cwd2 : forall os s,
+  pushes cfg_fixed pres wd cwd1 s os = pushes cfg_fixed pres wd cwd2 s os.
+Proof.
+  induction os as [|o os IH]; intros s; [reflexivity|].
+  cbn [pushes]. rewrite (push_cwd pres wd cwd1 cwd2).
+  destruct (push cfg_fixed pres wd cwd2 s o) as [s1 ok]. now rewrite IH.
+Qed.
+
+(* ---------- Lstat at a location whose parents are real directories is a look-up ---------- *)
+
+(* (why the store's Lstat checks are modelled as look-ups at the lexical location) *)
+Lemma lstat_is_lookup f p fuel nl :
+  lexreal f [] p = true ->
+  match walk fuel f nl [] (Nms p) false with
+  | WFile q i => q = p /\ lookup f p = Some (NFile i)
+  | WSym q d a cs => q = p /\ lookup f p = Some (NSym d a cs)
+  | WNoEnt q => q = p /\ lookup f p = None
+  | WDir q => q = p
+  | _ => True
+  end.
+Proof.
+  intro HL. pose proof (walk_lexical f p fuel nl [] HL) as Wl.
+  pose proof (walk_lookup f fuel nl [] (Nms p) false) as Wk.
+  destruct (walk fuel f nl [] (Nms p) false); simpl in *; try exact Logic.I; subst p0;
+    try (destruct Wk as [L _]; split; [reflexivity | exact L]). reflexivity.
+Qed.
